@@ -533,6 +533,23 @@ func codecWoHeader(o *h.Out, rc *h.Rng, ans func(string)) {
 	}
 	wh := types.NewWorkObjectHeader(cHash(rc), cHash(rc), cBig(rc), cBig(rc), ptn, cHash(rc), types.EncodeNonce(rc.U64()), uint8(rc.Intn(4)), rc.U64(), loc, cAddr(rc, loc), rc.Bytes(rc.Intn(60)), nil, types.NewPowShareDiffAndCount(cBig(rc), cBig(rc), cBig(rc)), types.NewPowShareDiffAndCount(cBig(rc), cBig(rc), cBig(rc)), cBig(rc), cBig(rc), cBig(rc))
 	wh.SetMixHash(cHash(rc))
+	if ptn.Uint64() >= params.KawPowForkBlock && rc.Chance(60) {
+		// a merge-mined header or work share: the donor proof of any of the four algorithms is part of the object
+		pid := []types.PowID{types.Kawpow, types.SHA_BTC, types.SHA_BCH, types.Scrypt}[rc.Intn(4)]
+		height := uint32(1000 + rc.Intn(100000))
+		out := []byte{0x01, 0, 0, 0, 0, 0, 0, 0, 0, 0x00, 0, 0, 0, 0}
+		ctx := types.NewAuxPowCoinbaseTx(pid, height, out, cHash(rc), uint32(rc.U64()))
+		var prev, mr [32]byte
+		copy(prev[:], rc.Bytes(32))
+		copy(mr[:], rc.Bytes(32))
+		donor := types.NewBlockHeader(pid, 0x20000000, prev, mr, uint32(rc.U64()), 0x1d00ffff, uint32(rc.U64()), height)
+		var branch [][]byte
+		for i, n := 0, rc.Intn(3); i < n; i++ {
+			branch = append(branch, rc.Bytes(32))
+		}
+		wh.SetAuxPow(types.NewAuxPow(pid, donor, rc.Bytes(rc.Intn(40)), rc.Bytes(64), branch, ctx))
+		o.Count(fmt.Sprintf("woheader-auxpow:%d", pid))
+	}
 	pb, err := wh.ProtoEncode()
 	if err != nil {
 		o.Count("woheader-encode-err")
@@ -550,6 +567,9 @@ func codecWoHeader(o *h.Out, rc *h.Rng, ans func(string)) {
 	}
 	if wh.Hash() != wh2.Hash() || wh.SealHash() != wh2.SealHash() {
 		o.Violate("c14-hash-changes:woheader", "work-object header hash / seal hash changes over the wire round trip")
+	}
+	if (wh.AuxPow() == nil) != (wh2.AuxPow() == nil) {
+		o.Violate("c14-roundtrip-changes-object:woheader", fmt.Sprintf("the donor proof (AuxPoW) is present before the round trip: %v, after: %v", wh.AuxPow() != nil, wh2.AuxPow() != nil))
 	}
 	m0, m1 := wh.RPCMarshalWorkObjectHeader("v2"), wh2.RPCMarshalWorkObjectHeader("v2")
 	if ptn.Uint64() < params.KawPowForkBlock {
